@@ -428,7 +428,7 @@ PLANS = [
 def _split_jobs(tier, seed):
     rng = random.Random(1500 + int(seed))
     shapes = list(CORE_SHAPES)
-    for _ in range(6 if tier == 'quick' else 30):
+    for _ in range(6 if tier == 'quick' else 60):
         shapes.append(gen_programs(rng, 3, 7 if tier == 'quick' else 8, ['T', 'T', 'T', 'S', 'I', 'E', 'W', 'J']))
     js = []
     for si, sh in enumerate(shapes):
